@@ -49,7 +49,7 @@ claim("C06", "E1 model + E2 differential",
       MODEL_NOTE + " Known finding D3 (found of a filter rejection) is reported as KNOWN-FINDING by signature.", "DESIGN §5 C06")
 claim("C08", "E1 model",
       "runtime monitoring: reference-model monitor over executions of recover_with (all four strategies, nested, after deeper failures, in repetitions), valid and invalid inputs",
-      "Grammars with 1..2 recovery nodes (exhaustive small), shaped placements of every strategy, bracket languages for nested_delimiters and random larger grammars x all small inputs, parse and check: transparent where p succeeds; exactly one extra error equal to the model's pending primary error on recovery; same error and no consumption on double failure; minimal skip count; retry-after-each-skip; one balanced region (independent bracket matcher); no fallback marker in error-free results.",
+      "Grammars with 1..2 recovery nodes (exhaustive small), shaped placements of every strategy, bracket languages for nested_delimiters and random larger grammars x all small inputs, parse and check: transparent where p succeeds; exactly one extra error equal to the model's pending primary error on recovery; same error and no consumption on double failure; minimal skip count; retry-after-each-skip; one balanced region (independent bracket matcher); no fallback marker in error-free results. Model-free bracket family: nested_delimiters with 0..3 other pairs and varying main pair (statically typed) x all strings over the eight delimiters + random mostly-balanced strings, against an independent bracket matcher (items, remainder, one error per recovered region).",
       MODEL_NOTE + " P1/P3 pins, A9 leniency.", "DESIGN §5 C08")
 claim("C17", "E2 differential + E1 model",
       "runtime monitoring: differential monitor between real executions (decorated vs undecorated grammar, every subset of nodes) + reference-model monitor of the label/context/map_err content of reported errors",
@@ -71,10 +71,10 @@ claim("C16", "E1 model + independent recogniser",
       "Grammars with nested_in (exhaustive small, shaped, random) on &[char], &str and a gapped-span mapped slice, parse and check: inner grammar sees exactly b's tokens, must match completely, outer advances by b's extent, inner emissions and inner failure surface, enclosing choices/repetitions backtrack over a failed nested parse, inspector state continues; random token trees parsed by a recursive nested_in grammar (strict and with a fallback alternative) vs an independent recogniser.",
       MODEL_NOTE + " A6: spans of errors produced inside a nested input are not compared.", "DESIGN §5 C16")
 
-claim("C18", "E1 model",
-      "runtime monitoring: reference-model monitor over inspector-state observations made at every node (map_with), in select closures, fold callbacks and zero-width probes, with a snapshot-checkpoint Inspector, on &str, &[char] and Stream",
-      "Every observation of the user state must equal the fold of exactly the tokens before the observation point (per with_state scope), the final state the fold of the whole input — across backtracking, lookahead and all recovery strategies; with_state scopes inside repetitions, abandoned alternatives, recovery, nested with_state. Exhaustive small grammars x inputs, shaped placements, random larger ones; parse and check mode (probes observe in check mode).",
-      MODEL_NOTE + " Pratt fold callbacks observing the state are part of the C09 driver.", "DESIGN §5 C18")
+claim("C18", "E1 model + model-free position-carrying observations",
+      "runtime monitoring: reference-model monitor over inspector-state observations made at every node (map_with), in select closures, fold callbacks and zero-width probes, with a snapshot-checkpoint Inspector, on &str, &[char] and Stream; plus a model-free invariant monitor in which every observation (map_with / validate / fold / select! / Pratt callbacks, zero-width custom probes in both modes and on abandoned paths) carries its own position and must equal the fold of input[..position], over 52 statically typed parsers outside the grammar AST (text::*, regex, string just, recoveries, Pratt, hand-driven InputRef)",
+      "Every observation of the user state must equal the fold of exactly the tokens before the observation point (per with_state scope), the final state the fold of the whole input — across backtracking, lookahead and all recovery strategies; with_state scopes inside repetitions, abandoned alternatives, recovery, nested with_state. Exhaustive small grammars x inputs, shaped placements, random larger ones; parse and check mode (probes observe in check mode). API family: state == fold(input[..position]) at every observation and fold(whole input) after every parse with output, on all strings <= 4/5 over nine characters + random word strings as &str, &[char] and Stream.",
+      MODEL_NOTE + " The API family trusts only the Insp fold and the position reported by span()/span_since(). Pratt fold callbacks observing the state are part of the C09 driver.", "DESIGN §5 C18")
 
 claim("C15", "E1 model",
       "runtime monitoring: reference-model monitor over context observations made at every node, in probes, select closures and fold callbacks, and over the behaviour of parsers configured from context",
@@ -83,7 +83,7 @@ claim("C15", "E1 model",
 
 claim("C11", "E2 differential + E1 model + E6 process",
       "runtime monitoring: differential monitor between real executions (memoized() at every subset of nodes vs plain grammar), reference-model monitor of each memoized run, statically typed placements, and a child-process monitor with a logical step budget for left-recursive grammars",
-      "memoized() at every subset of nodes of every small grammar (sampled subsets, doubly memoized nodes for random ones) must leave acceptance, outputs and the full error list identical to the plain grammar; statically typed zero-sized / nested / adjacent / cloned memoized parsers against their plain formulation; five left-recursive shapes with a memoized recursive step on all short inputs must return a ParseResult within 10^7 logical steps in a child process (a crash or stack overflow kills only the child and is reported).",
+      "memoized() at every subset of nodes of every small grammar (sampled subsets, doubly memoized nodes for random ones) must leave acceptance, outputs and the full error list identical to the plain grammar; statically typed zero-sized / nested / adjacent / cloned memoized parsers against their plain formulation, incl. adjacent small memoized parsers (array / tuple elements) over all inputs <= 7/8 tokens and random inputs <= 48 tokens; five left-recursive shapes with a memoized recursive step on all short inputs must return a ParseResult within 10^7 logical steps in a child process (a crash or stack overflow kills only the child and is reported).",
       MODEL_NOTE + " Known finding D6 (memo key = position + address) is reported as KNOWN-FINDING by signature; for left recursion only termination is judged.", "DESIGN §5 C11")
 
 claim("C12", "E1 model + E2 differential + E6 process + E7 sanitizer",
@@ -104,7 +104,7 @@ claim("C19", "E5 drop ledger + E7 sanitizer",
       "The ledger stores ids, not addresses, so leaks stay visible to Miri/LSan. A panic's aftermath is not judged (C20). Recursive::declare/define cycles are a documented parser-side leak and are kept out of the leak-checked workload.", "DESIGN §5 C19")
 claim("C20", "E6 process + E1 model (step budget) + E7 sanitizer",
       "runtime monitoring: child-process monitor (exit status, signal, per-case CPU-time hang monitor, wall-clock watchdog, re-run in trace mode to name the case), per-case panic capture, logical step budget in an Inspector judged against the reference model's budget, ParseResult-contract assertions, bounds/char-boundary checks on every reported span and returned slice, step-growth monitor on scaling families; Miri (quick) and ASan (thorough) on the text/byte/grapheme drivers",
-      "Wrapper saturation (every node of every small grammar wrapped in map_err / labelled / as_context / memoized / 6 recovery forms, pairs of wrappers) x all small inputs x EmptyErr/Rich/Cheap/Simple x parse/check; random grammars of the broadest class on arbitrary Unicode (NUL, combining, ZWJ, astral, noncharacters) and all prefixes, on four input kinds; 14+7+2 statically typed text grammars on arbitrary Unicode strings, arbitrary bytes, truncated UTF-8 and Graphemes; 9 scaling families up to 2^17 (quick) / 2^20 (thorough) bytes.",
+      "Wrapper saturation (every node of every small grammar wrapped in map_err / labelled / as_context / memoized / 6 recovery forms, pairs of wrappers) x all small inputs x EmptyErr/Rich/Cheap/Simple x parse/check; random grammars of the broadest class on arbitrary Unicode (NUL, combining, ZWJ, astral, noncharacters) and all prefixes, on four input kinds; 14+7+2 statically typed text grammars on arbitrary Unicode strings, arbitrary bytes, truncated UTF-8 and Graphemes; 9 scaling families up to 2^17 (quick) / 2^20 (thorough) bytes; 12 deep nesting / operator-chain families x 4 forms on 1 MiB-stack threads (depth 2.5*10^5 / 10^6); the iterable-parser matrix (10 IterParser sources x admitted adapter stacks x 8 drivers = 280 statically typed parsers x all inputs <= 4).",
       "A hang is decided on logical steps (10^7) or CPU time of a single case (40 s where microseconds are normal), never on wall-clock; the parent's watchdog alone is inconclusive. 'Polynomial' is shown as linear step growth on the listed families only.", "DESIGN §5 C20")
 
 NOT_CLAIMED = {}
